@@ -22,19 +22,21 @@ _THEOREMS = [
     "Zrnt.Proofs.C12.block_violated_never_accept",
     "Zrnt.Proofs.C12.block_timing_failures_ignore",
     "Zrnt.Proofs.C12.block_marks_only_on_accept",
+    "Zrnt.Proofs.C12.prevEpoch_beq",
+    "Zrnt.Proofs.C12.checkpointWalk_eq",
+    "Zrnt.Proofs.C12.attSlotOk_eq_spec",
+    "Zrnt.Proofs.C12.epochStartSlot_ok_val",
+    "Zrnt.Proofs.C12.att_walk_of_ok",
     "Zrnt.Proofs.C12.att_marks_only_on_accept",
+    "Zrnt.Proofs.C12.att_accept_iff_all_conditions",
+    "Zrnt.Proofs.C12.att_violated_never_accept",
     "Zrnt.Proofs.C12.att_timing_failures_ignore",
-    "Zrnt.Proofs.C12.att_accept_iff_all_conditions_partial",
-    "Zrnt.Proofs.C12.att_violated_never_accept_partial",
-    "Zrnt.Proofs.C12.att_accepts_non_checkpoint_target",
-    "Zrnt.Proofs.C12.att_deneb_window_differs",
-    "Zrnt.Proofs.C12.att_deneb_window_drops_honest",
     "Zrnt.Proofs.C12.selCheck_cases",
+    "Zrnt.Proofs.C12.agg_walk",
     "Zrnt.Proofs.C12.agg_marks_only_on_accept",
     "Zrnt.Proofs.C12.agg_timing_failures_ignore",
-    "Zrnt.Proofs.C12.agg_accept_iff_all_conditions_partial",
-    "Zrnt.Proofs.C12.agg_violated_never_accept_partial",
-    "Zrnt.Proofs.C12.agg_accepts_non_checkpoint_target",
+    "Zrnt.Proofs.C12.agg_accept_iff_all_conditions",
+    "Zrnt.Proofs.C12.agg_violated_never_accept",
     "Zrnt.Proofs.C12.exitValid_iff",
     "Zrnt.Proofs.C12.exit_accept_iff_all_conditions",
     "Zrnt.Proofs.C12.exit_timing_failures_ignore",
@@ -106,8 +108,9 @@ PROPS["C12"] = dict(
         technique="Lean 4 proof over code-shaped model + Go/Lean differential correspondence with scripted backends and real BLS messages",
         design_ref="DESIGN.md 5/C12", engine="lean"),
     assumptions=[
-        "the chain view is an abstract answer record (zrnt has no chain backend); answers are consistent: 'target is the checkpoint block' implies 'target is an ancestor'",
+        "the chain view is an abstract answer record (zrnt has no chain backend): the voted block, the parents the view resolves (root, slot), InSubtree answers; consistency: the checkpoint block of a vote is not reported as a non-ancestor, fewer than SLOTS_PER_EPOCH blocks lie between the target epoch start and the voted block, the spec's fork (phase0 / deneb attestation window) is the fork of the clock's epoch under the node's DENEB_FORK_EPOCH (spec column `any` otherwise)",
         "finalized_epoch * SLOTS_PER_EPOCH, committees_per_slot * SLOTS_PER_EPOCH and activation_epoch + SHARD_COMMITTEE_PERIOD fit 64 bits (spec column is `any` otherwise)",
-        "bellatrix+ execution-payload and deneb blob conditions of beacon_block are outside gossipval (header envelope only) and outside this check",
+        "beacon_block: the bellatrix+ execution-payload conditions and the deneb blob-commitment condition are outside gossipval (it receives the header envelope only) and outside this check",
+        "not covered: the later-revision '[IGNORE] a superset aggregate / contribution has already been seen' conditions — gossipval's backend interfaces have no such cache (SeenAggregate is keyed by hash_tree_root(aggregate), SeenContribution by (aggregator, slot, subcommittee)); the specification here is the revision with exactly those two de-duplication keys",
     ],
 )
